@@ -391,8 +391,11 @@ func TestCheck(t *testing.T) {
 			// to this one bridge.  Each of them is owed the same treatment as a
 			// probe that comes alone (whatever the server does to bound its own
 			// resources may not show as another close time or as unread input).
-			if r.Thorough() || bi%4 == 1 {
-				n := r.Pick(200, 600)
+			// (not for every bridge: a shard process that creates some hundred
+			// thousand goroutines runs into an internal CHECK of the race runtime,
+			// tsan_rtl.cpp:346, which ends it without a verdict)
+			if bi%4 == 1 && (!r.Thorough() || bi%16 == 1) {
+				n := r.Pick(200, 260) // (the race detector supports 8128 live goroutines; a probe takes several)
 				var flood []probe // (every entry is used once: a chunk policy has state)
 				for len(flood) < n {
 					flood = append(flood, probesFor(rng, b, r, false)...)
